@@ -151,6 +151,8 @@ SerdeRel(op, a, r) ==
                                 r.t = "Tup" /\ Len(r.c) = 2 /\ r.c[1] = Bv(DecAccepts(keys)) /\ (DecAccepts(keys) => r.c[2] = Bv(TRUE))
     \* anything that is not an object (a sequence, a number, a string, null, a boolean), or an object one of whose
     \* three fields holds a value of the wrong type, is rejected
+    \* embedded with #[serde(flatten)] the value still round-trips: the announced field names are scale, rot, disp
+    [] op = "serde_flatten" -> r = V("Tup", <<Bv(TRUE)>>)
     [] op = "serde_dec_malformed" -> Sc(a, 2) \in MalformedKinds /\ r = V("Tup", <<Bv(FALSE)>>)
     [] OTHER -> FALSE
 
@@ -158,7 +160,7 @@ SerdeRel(op, a, r) ==
 \* Integer projections of floating-point results (computed by the recorder in f64 from the native values).
 \* The model knows the exact rational inputs, so it knows which side of each threshold they are on.
 IsIntTup(x, n) == x.t = "Tup" /\ Len(x.c) = n
-ProjOps == {"slerp_proj", "nlerp_proj", "slerp_axis_proj", "look_proj", "arc_proj", "small_rot_proj", "norm_proj", "trig_big_proj", "tiny_inv_proj", "slab_proj", "scale_proj", "cross_near_proj", "mm_col_proj", "look_mag_proj", "deep_proj", "angle_near_proj", "lerp_end_proj", "dec_concat_proj", "fov_proj", "hom_proj", "near_sing_proj", "tilt_rot_proj", "look2_mag_proj", "planar_far_proj", "lerp_far_proj", "pred_near_proj", "unit_roundtrip", "normalize_native", "turn_div_exact", "full_turn_value", "euler_proj"}
+ProjOps == {"slerp_proj", "nlerp_proj", "slerp_axis_proj", "look_proj", "arc_proj", "small_rot_proj", "norm_proj", "trig_big_proj", "tiny_inv_proj", "slab_proj", "scale_proj", "cross_near_proj", "mm_col_proj", "look_mag_proj", "deep_proj", "angle_near_proj", "lerp_end_proj", "dec_concat_proj", "fov_proj", "hom_proj", "near_sing_proj", "tilt_rot_proj", "look2_mag_proj", "planar_far_proj", "lerp_far_proj", "pred_near_proj", "inv_vec_agree_proj", "inv_trig_proj", "forms_eq_proj", "look_near_proj", "unit_roundtrip", "normalize_native", "turn_div_exact", "full_turn_value", "euler_proj"}
 \* degree of homogeneity of the operations when every vector / point / matrix / quaternion argument is multiplied by k
 \* (scalar arguments are not scaled): linear operations 1, products and quadratic forms 2, determinants n, inverses -1,
 \* directions and angles 0
@@ -190,8 +192,8 @@ ProjRel(op, k, a, r) ==
     \* dir z sign, up off the plane x = 0, up y sign, eye off the origin>> in machine epsilons / signs.  The handedness the
     \* model expects: Rotation::look_at and *_lh are left-handed (dir to +z), *_rh right-handed, deprecated Matrix4 aliases
     \* right-handed, deprecated Matrix3::look_at left-handed, the deprecated Transform::look_at either.
-    [] op \in {"look_proj", "look_mag_proj"} ->
-         LET inner == Sc(a, 1)  fm == Sc(a, 2)  off == IF op = "look_mag_proj" THEN 2 ELSE 0     \* two exponents follow the names
+    [] op \in {"look_proj", "look_mag_proj", "look_near_proj"} ->
+         LET inner == Sc(a, 1)  fm == Sc(a, 2)  off == IF op = "look_mag_proj" THEN 2 ELSE IF op = "look_near_proj" THEN 1 ELSE 0     \* exponents follow the names
              ty == IF a[3 + off].t = "T" THEN Sc(a, 3 + off) ELSE ""
              hands == CASE inner = "mat3_look_to" -> (IF fm = "rh" THEN {-1} ELSE {1})
                         [] inner \in {"mat4_look_to", "mat4_look_at"} -> (IF fm = "lh" THEN {1} ELSE {-1})
@@ -278,6 +280,12 @@ ProjRel(op, k, a, r) ==
     [] op = "lerp_far_proj" -> IsIntTup(r, 2) /\ r.c[1].c[1] <= 16 /\ r.c[2].c[1] = TRUE
     \* C18, predicates on nearly symmetric / diagonal matrices equal the conjunction of the scalar comparisons
     [] op = "pred_near_proj" -> IsIntTup(r, 1) /\ Sc(a, 1) \in {"is_symmetric", "is_diagonal"} /\ r.c[1].c[1] = TRUE
+    \* C08: inverse_transform_vector agrees with inverse_transform (projective matrices included)
+    [] op = "inv_vec_agree_proj" -> IsIntTup(r, 2) /\ r.c[1].c[1] = TRUE /\ r.c[2].c[1] <= 64
+    \* C13: asin, acos, atan next to the ends of their domain
+    [] op = "inv_trig_proj" -> IsIntTup(r, 3) /\ \A i \in 1..3 : r.c[i].c[1] <= 64
+    \* C17: all spellings of an operator agree bit for bit on native operands (at least two spellings exist)
+    [] op = "forms_eq_proj" -> IsIntTup(r, 2) /\ r.c[1].c[1] = TRUE /\ r.c[2].c[1] >= 2
     \* C10, far = near * 1e3 .. 1e12: accepted, near plane to -1 and far plane to +1 to a few eps
     [] op = "deep_proj" -> /\ IsIntTup(r, 3) /\ RGt(Sc(a, 2), Zero) /\ r.c[1].c[1] = TRUE /\ r.c[2].c[1] <= 64 /\ r.c[3].c[1] <= 64
     \* C11, angle of nearly (anti)parallel vectors in 2-D and 3-D: within ten millionths of the small angle, both argument orders
@@ -310,7 +318,7 @@ ProjRel(op, k, a, r) ==
             ELSE r.c[1].c[1] = TRUE /\ r.c[2].c[1] = TRUE /\ r.c[3].c[1] = RSgn(siny) /\ r.c[4].c[1] <= 130
     [] OTHER -> FALSE
 
-MiscRelOps == ApproxOps \cup PredOps \cup ProjOps \cup {"cast", "serde_shape", "serde_special", "serde_dec_keys", "serde_dec_malformed"}
+MiscRelOps == ApproxOps \cup PredOps \cup ProjOps \cup {"cast", "serde_shape", "serde_special", "serde_dec_keys", "serde_dec_malformed", "serde_flatten"}
 MiscRel(op, k, f, a, r) ==
   IF op \in ApproxOps \cup PredOps THEN ApproxRel(op, k, f, a, r)
   ELSE IF op \in ProjOps THEN ProjRel(op, k, a, r)
